@@ -331,6 +331,24 @@ static void removeAt(const std::string& p)
   fs::remove_all(fs::path(p), ec);
 }
 
+// Environment steps (`put`, `rm`, the mutation of `sched` / `race`) act only when the PARENT of the named path is a real directory
+// reached through real directories — no symbolic link is traversed on the way (the model's Fs.envSet / Fs.envRemove: `Fs.get` by
+// names).  Otherwise nothing happens: a path spelled through a link would create / remove an object somewhere else.
+static bool realParent(const std::string& p)
+{
+  std::size_t k = p.rfind('/');
+  if (k == std::string::npos || k == 0) return false;
+  const std::string parent = p.substr(0, k);
+  using F = char* (*)(const char*, char*);
+  static F real = reinterpret_cast<F>(::dlsym(RTLD_NEXT, "realpath"));
+  char* r = real(parent.c_str(), nullptr);
+  if (!r) return false;
+  const bool same = parent == r;
+  std::free(r);
+  struct stat sb;
+  return same && ::syscall(SYS_newfstatat, AT_FDCWD, parent.c_str(), &sb, AT_SYMLINK_NOFOLLOW) == 0 && S_ISDIR(sb.st_mode);
+}
+
 static bool die2(const std::string& p) { die("cannot create " + p + ": " + std::strerror(errno)); }
 
 static bool putEntry(char kind, const std::string& p, const std::string& data, bool replace)
@@ -344,7 +362,11 @@ static bool putEntry(char kind, const std::string& p, const std::string& data, b
       return true;
     die("entry outside the sandbox: " + p);
   }
-  if (replace) removeAt(p);
+  if (replace)
+  {
+    if (!realParent(p)) return true; // nothing happens (see realParent)
+    removeAt(p);
+  }
   if (kind == 'd') return ::mkdir(p.c_str(), 0755) == 0 || die2(p);
   if (kind == 'f') { writeFile(p, data); return true; }
   if (kind == 'l') return ::symlink(data.c_str(), p.c_str()) == 0 || die2(p);
@@ -500,7 +522,12 @@ int main()
         putEntry(t[1][0], str(a), str(b), true);
         return "ok";
       }
-      if (t.size() == 2 && t[0] == "rm" && vh::ofHex(t[1], a)) { removeAt(str(a)); return "ok"; }
+      if (t.size() == 2 && t[0] == "rm" && vh::ofHex(t[1], a))
+      {
+        if (!inSandbox(str(a))) die("refusing to remove " + str(a));
+        if (realParent(str(a))) removeAt(str(a));
+        return "ok";
+      }
       if (t.size() == 2 && t[0] == "wc" && vh::ofHex(t[1], a))
       {
         std::error_code ec;
@@ -656,7 +683,8 @@ int main()
           g_s.candidateAbs = fs::absolute(fs::path(base) / fs::path(n), ec).string();
         }
         g_s.mutate = [kind, mpath, mdata]() {
-          // soft: where the parent is not a directory nothing can be created (the model's table entry is unreachable there too)
+          // nothing happens unless the parent is a real directory reached without traversing a link (Fs.envSet / Fs.envRemove)
+          if (!realParent(mpath)) return;
           removeAt(mpath);
           if (kind == 'd') (void)::mkdir(mpath.c_str(), 0755);
           else if (kind == 'l') (void)::symlink(mdata.c_str(), mpath.c_str());
@@ -717,7 +745,15 @@ int main()
             else if (vh::parseNat(tok, k)) g_script.push_back(static_cast<long>(k == 0 ? 1 : k));
             else return "bad-op";
           }
+        // the script alone decides what read(2) answers during this op: a `readcfg` in force (chunk limit, EINTR every k-th read of
+        // a GLOBAL counter the model cannot know) is suspended, otherwise it would clamp the scripted sizes and shift the script
+        const std::size_t savedChunk = g_chunkMax;
+        const unsigned savedEintr = g_eintrEvery;
+        g_chunkMax = 0;
+        g_eintrEvery = 0;
         auto d = Assets::readFile(fs::path(str(a)));
+        g_chunkMax = savedChunk;
+        g_eintrEvery = savedEintr;
         g_script.clear();
         g_scriptPos = 0;
         return d ? "some " + vh::toHex(*d) : std::string("none");
@@ -817,7 +853,7 @@ int main()
         }
         if (gated)
         {
-          if (mk != 'n')
+          if (mk != 'n' && realParent(mpath))
           {
             removeAt(mpath);
             if (mk == 'l') (void)::symlink(mdata.c_str(), mpath.c_str());
